@@ -53,4 +53,7 @@ impl Drop for Scratch {
 
 pub fn cleanup_all() {
     let _ = std::fs::remove_dir_all(base_dir());
+    for root in ["/var/tmp", "/dev/shm"] {
+        let _ = std::fs::remove_dir_all(PathBuf::from(root).join(format!("cvh-x.{}", std::process::id())));
+    }
 }
